@@ -1578,9 +1578,9 @@ VARIANTS += [
  _ct('ctor-presets-flag', 'flagged(early-exit/flag-only-on-success)', fn=_CT_FN.replace('\t\tmaxAttempts:        limit,\n', '\t\tmaxAttempts:        limit,\n\t\tsucceeded:          limit > 100,\n')),
  _ct('ctor-presets-flag-true', 'flagged(early-exit/flag-only-on-success)', fn=_CT_FN_STEPS.replace('a.succeeded = false', 'a.succeeded = true')),
  _ct('ctor-presets-counter', 'flagged(bound/counter)', fn=_CT_FN_STEPS.replace('a.processed = 0', 'a.processed = -limit')),
- _ct('ctor-keeps-object', 'flagged(', fn='var allAttempts []*signatureAttempts\n\n' + _CT_FN_STEPS.replace('\treturn a\n', '\tallAttempts = append(allAttempts, a)\n\treturn a\n'),
+ _ct('ctor-keeps-object', 'flagged(callback/state-object)', fn='var allAttempts []*signatureAttempts\n\n' + _CT_FN_STEPS.replace('\treturn a\n', '\tallAttempts = append(allAttempts, a)\n\treturn a\n'),
      why='the constructor keeps a second way to reach the object'),
- _ct('ctor-returns-shared-object', 'flagged(', fn='var theAttempts signatureAttempts\n\n' + _CT_FN_STEPS.replace('\ta := new(signatureAttempts)\n', '\ta := &theAttempts\n'),
+ _ct('ctor-returns-shared-object', 'flagged(bound/counter)', fn='var theAttempts signatureAttempts\n\n' + _CT_FN_STEPS.replace('\ta := new(signatureAttempts)\n', '\ta := &theAttempts\n'),
      why='no fresh object: state survives from one verification to the next'),
- _ct('ctor-returns-either-object', 'flagged(', fn='var theAttempts signatureAttempts\n\n' + _CT_FN_STEPS.replace('\treturn a\n', '\tif limit > 50 {\n\t\treturn &theAttempts\n\t}\n\treturn a\n')),
+ _ct('ctor-returns-either-object', 'flagged(bound/counter)', fn='var theAttempts signatureAttempts\n\n' + _CT_FN_STEPS.replace('\treturn a\n', '\tif limit > 50 {\n\t\treturn &theAttempts\n\t}\n\treturn a\n')),
 ]
